@@ -174,8 +174,13 @@ where
 
                     while ptr < self.buf.end {
                         if *ptr == b'\\' {
-                            let advance = self.buf.end.offset_from(ptr).min(2);
-                            ptr = ptr.offset(advance);
+                            if self.buf.end.offset_from(ptr) < 2 {
+                                // the escaped byte has not arrived yet: resume at the backslash
+                                let len = self.buf.window_len();
+                                let resume = ptr.offset_from(self.buf.start) as usize;
+                                return self.next_opt_refill(ParseState::Quote, len, resume);
+                            }
+                            ptr = ptr.add(2);
                         } else if *ptr != b'"' {
                             ptr = ptr.add(1);
                         } else {
